@@ -5559,7 +5559,7 @@ class CodegenCtx:
 
         return f"memcpy(state->c.{into.name}, \"{self._escape_string(value)}\", {escaped_length if not into.str_null else escaped_length+1});"
 
-    def _generate_action_implementation(self, action: Action, is_start: bool = False, is_end: bool = False, transition=None):
+    def _generate_action_implementation(self, action: Action, is_start: bool = False, is_end: bool = False, transition=None, early_advanced: bool = False):
         result = Outputter()
         ctx = IntegerExprUseContext.ASSIGN_ON_MATCH
         if is_start:
@@ -5620,6 +5620,10 @@ class CodegenCtx:
             with result as body:
                 body.add(f"state->state = {self.dfa.states.index(action.end_target)};")
                 if transition is not None:
+                    if early_advanced:
+                        # the input was already advanced for an action that may return early, but the out of space handler
+                        # has to see the character which did not fit
+                        body.add("--(*start);" if ProgramData.do(ProgramFlag.INDIRECT_START_PTR) else "--start;")
                     body.add(f"goto repeatswitch;") # Fallthrough via switch
                 else:
                     body.add(f"return {self.program_name.upper()}_OK;") # end processing instructions
@@ -5663,7 +5667,7 @@ class CodegenCtx:
                 # Generate condition body like normal
                 with result as body:
                     for sub_act in action.sub_actions[condition]:
-                        body += self._generate_action_implementation(sub_act, is_start=is_start, is_end=is_end, transition=transition)
+                        body += self._generate_action_implementation(sub_act, is_start=is_start, is_end=is_end, transition=transition, early_advanced=early_advanced)
 
                 result.add("}")
         elif isinstance(action, BreakAction):
@@ -5671,7 +5675,7 @@ class CodegenCtx:
             # Generate all subactions
             result.add("// break subactions")
             for subaction in action.replacement_actions():
-                result += self._generate_action_implementation(subaction, is_start=is_start, is_end=is_end, transition=transition)
+                result += self._generate_action_implementation(subaction, is_start=is_start, is_end=is_end, transition=transition, early_advanced=early_advanced)
             result.add(f"state->state = {self.dfa.states.index(action.refers_to.end_state)};")
             if transition is not None:
                 result.add(f"goto {self._transition_skip_action_label(transition)};")
@@ -5834,7 +5838,8 @@ class CodegenCtx:
         target_overriden = False
         needs_early_advance = any(x.may_return_early() for x in transition.actions)
         immediate_done = transition.target in self.dfa.accepting_states and not ProgramData.do(ProgramFlag.STRICT_DONE_TOKEN_GENERATION) and all(x.error_handling for x in transition.target.transitions)
-        if needs_early_advance and not from_end and not transition.is_fallthrough and not immediate_done:
+        early_advanced = needs_early_advance and not from_end and not transition.is_fallthrough and not immediate_done
+        if early_advanced:
             if ProgramData.do(ProgramFlag.INDIRECT_START_PTR):
                 transition_body.add(f"++(*start);");
             else:
@@ -5843,7 +5848,7 @@ class CodegenCtx:
         for action in transition.actions:
             transition_body.add()
             transition_body.add(f"// action {action!r} ")
-            transition_body += self._generate_action_implementation(action, is_end=from_end, transition=transition)
+            transition_body += self._generate_action_implementation(action, is_end=from_end, transition=transition, early_advanced=early_advanced)
         if any(
             any(
                 ProgramData.lookup(subact, DTAG.ACTION_MAY_SKIP, recurse_upwards=False, default=False) for subact in action.all_subactions()
